@@ -146,20 +146,25 @@ def proof_gate(prop, extra_modules=()):
     """Build Props/<prop>.vo, then Print Assumptions for every Theorem/Example pinned there.
     Returns dict(theorems=[(name, assumptions_text)], ok, log, axioms=set)."""
     t0 = time.time()
-    ok, blog = coq_build(["Props/%s.vo" % prop])
+    pfiles = sorted(f for f in os.listdir(os.path.join(COQ, "Props"))
+                    if f.endswith(".v") and (f == prop + ".v" or f.startswith(prop + "_")))
+    ok, blog = coq_build(["Props/%so" % f for f in pfiles])
     res = {"ok": ok, "log": blog[-4000:], "theorems": [], "axioms": set(), "bad": [], "wall": 0.0}
     if not ok:
         m = re.search(r'File "([^"]+)", line (\d+)', blog)
         res["where"] = "%s:%s" % (m.group(1), m.group(2)) if m else "?"
         res["wall"] = time.time() - t0
         return res
-    src = strip_comments(open(os.path.join(COQ, "Props", prop + ".v")).read())
-    names = [m.group(2) for m in THM_RE.finditer(src) if m.group(1) == "Theorem"]
-    examples = [m.group(2) for m in THM_RE.finditer(src) if m.group(1) == "Example"]
+    names, examples = [], []
+    for f in pfiles:
+        src = strip_comments(open(os.path.join(COQ, "Props", f)).read())
+        names += [m.group(2) for m in THM_RE.finditer(src) if m.group(1) == "Theorem"]
+        examples += [m.group(2) for m in THM_RE.finditer(src) if m.group(1) == "Example"]
     os.makedirs(os.path.join(BUILD, "pa"), exist_ok=True)
     pa = os.path.join(BUILD, "pa", "PA_%s_%d.v" % (prop, os.getpid()))
     with open(pa, "w") as f:
-        f.write("From Fibre Require Import Props.%s.\n" % prop)
+        for pf in pfiles:
+            f.write("From Fibre Require Import Props.%s.\n" % pf[:-2])
         for n in names + examples:
             f.write('Goal True. idtac "@@ %s". exact I. Qed.\nPrint Assumptions %s.\n' % (n, n))
     rc, o, e = sh(["timeout", "600", "coqc", "-Q", COQ, "Fibre", pa], cwd=os.path.dirname(pa), timeout=700)
